@@ -52,10 +52,31 @@ type MemFS struct {
 	dirs    map[string]bool
 	journal []FSOp
 	logging bool
+	failAt   int // >= 0: the mutating operation that would become journal entry failAt fails once with ErrInjected
+	injected int // number of failures injected so far
+}
+
+// ErrInjected is the I/O error of an injected fault (fault enumeration: every file operation of an action fails once).
+var ErrInjected = errors.New("input/output error (injected)")
+
+// FailAt arms one injected failure: the mutating operation issued when the journal holds exactly n entries fails.
+func (m *MemFS) FailAt(n int) { m.mu.Lock(); m.failAt = n; m.mu.Unlock() }
+
+// Injected reports how many failures were injected.
+func (m *MemFS) Injected() int { m.mu.Lock(); defer m.mu.Unlock(); return m.injected }
+
+// inject is called (lock held) at the start of every mutating operation.
+func (m *MemFS) inject(op, p string) error {
+	if m.failAt >= 0 && len(m.journal) == m.failAt {
+		m.failAt = -1
+		m.injected++
+		return &fs.PathError{Op: op, Path: p, Err: ErrInjected}
+	}
+	return nil
 }
 
 func NewMemFS() *MemFS {
-	return &MemFS{files: map[string]*inode{}, dirs: map[string]bool{"/": true}, logging: true}
+	return &MemFS{files: map[string]*inode{}, dirs: map[string]bool{"/": true}, logging: true, failAt: -1}
 }
 
 var (
@@ -250,6 +271,9 @@ func OpenFile(name string, flag int, perm os.FileMode) (*File, error) {
 		if !m.dirs[path.Dir(p)] {
 			return nil, notExist("open", name)
 		}
+		if err := m.inject("open", name); err != nil {
+			return nil, err
+		}
 		ino = &inode{}
 		m.files[p] = ino
 		m.log(FSOp{Kind: FSCreate, Path: p})
@@ -258,6 +282,9 @@ func OpenFile(name string, flag int, perm os.FileMode) (*File, error) {
 			return nil, &fs.PathError{Op: "open", Path: name, Err: fs.ErrExist}
 		}
 		if flag&os.O_TRUNC != 0 && flag&(os.O_WRONLY|os.O_RDWR) != 0 {
+			if err := m.inject("open", name); err != nil {
+				return nil, err
+			}
 			if len(ino.data) != 0 {
 				ino.data = nil
 			}
@@ -294,6 +321,9 @@ func MkdirAll(p string, perm os.FileMode) error {
 		}
 	}
 	for i := len(todo) - 1; i >= 0; i-- {
+		if err := m.inject("mkdir", todo[i]); err != nil {
+			return err
+		}
 		m.dirs[todo[i]] = true
 		m.log(FSOp{Kind: FSMkdir, Path: todo[i]})
 	}
@@ -470,6 +500,9 @@ func (f *File) Write(b []byte) (int, error) {
 	if f.ino == nil || f.flag&(os.O_WRONLY|os.O_RDWR) == 0 {
 		return 0, &fs.PathError{Op: "write", Path: f.path, Err: errors.New("bad file descriptor")}
 	}
+	if err := f.fs.inject("write", f.path); err != nil {
+		return 0, err
+	}
 	if f.flag&os.O_APPEND != 0 {
 		f.off = int64(len(f.ino.data))
 	}
@@ -532,6 +565,9 @@ func (f *File) Sync() error {
 	defer f.fs.mu.Unlock()
 	if f.closed {
 		return fs.ErrClosed
+	}
+	if err := f.fs.inject("sync", f.path); err != nil {
+		return err
 	}
 	f.fs.log(FSOp{Kind: FSSync, Path: f.path})
 	return nil
